@@ -111,10 +111,15 @@ void runLife(const Scn &scn, Out &out)
         else if (p[0] == "ackall") { if (tcp) tcp->ackAll(); }
         else if (p[0] == "ack") { if (tcp) tcp->ack(p[1].toLongLong()); }
         else if (p[0] == "peerclose") { if (tcp) tcp->peerClose(); }
+        else if (p[0] == "upsend") {
+            // kind proxy: the upstream server (which otherwise only listens) sends something and keeps its connection open
+            foreach (QTcpSocket *a, accepted) { if (a->state() == QAbstractSocket::ConnectedState) { a->write(unhx(p[1])); a->flush(); } }
+        }
         else if (p[0] == "killhandler") {
             // the handler object is replaced and destroyed while the request it was given is in flight (it has
             // been routed: before that the token does nothing); what it started for the connection is not its own
             Socket *hs = server ? sp->findChild<Socket *>() : nullptr;
+            if (!hs && handler) hs = handler->findChild<Socket *>();       // the proxy handler re-parents the socket to itself
             if (server && handler && hs && hs->isHeadersParsed()) { server->setHandler(nullptr); delete handler; handler = nullptr; }
         }
         else if (p[0] == "killserver") { if (server) { if (tcp) tcp->log = nullptr; delete server; server = nullptr; } }
